@@ -9,8 +9,10 @@ def main():
     # --- direction A: walk traces validated by Trace_Game (rule book evaluated on every event)
     results, paths = games.walk_traces(chk, events=700 if q else 20000, files=8 if q else 32)
     n_events, distinct = games.collect_walk(chk, results, paths)
-    # double pushes landing beside an enemy pawn that is pinned on any line or free (TLC family, every successor judged)
-    games.dblpush_lines(chk)
+    # double pushes landing beside an enemy pawn that is pinned on any line or free (TLC family, every successor judged);
+    # thorough tier only here - the quick tiers of C02 and C03 run the same family through the same trace specification
+    if not chk.quick:
+        games.dblpush_lines(chk)
     # --- direction B: enumerated families replayed into the generator
     fams = ["ep", "castle", "pin", "dblchk", "promo", "promopin", "kingwalk", "evade", "givechk", "noquiet"]
     if q:
